@@ -784,6 +784,14 @@ func vfGenCase(r *vfutil.Rand, idx int) *vfSCase {
 			c.raw = append(c.raw, data())
 		}
 	}
+	// two large arguments in flight at once (the parser keeps one decoder for the whole stream and
+	// hands argument slices to the queue uncopied: a reused read buffer would alias them)
+	if r.Chance(1, 40) {
+		at := r.Intn(len(c.raw) + 1)
+		big := func(b byte) []byte { return bytes.Repeat([]byte{b}, 66000+r.Intn(9000)) }
+		pair := [][][]byte{{[]byte("SET"), []byte("k1"), big('A')}, {[]byte("set"), []byte("k2"), big('B')}}
+		c.raw = append(c.raw[:at:at], append(pair, c.raw[at:]...)...)
+	}
 	// schedule: writes of 1..k commands at increasing times with gaps that are
 	// sometimes idle for several ticker periods (incl. before the first item)
 	t := 500
